@@ -344,6 +344,7 @@ pub struct NodeSpec {
 }
 
 impl NodeSpec {
+    #[allow(dead_code)]
     pub fn leaf(prim: u8) -> Self {
         NodeSpec {
             path: vec![],
@@ -450,7 +451,7 @@ pub struct Universe {
 }
 
 /// Payload of an injected unwind, to tell it from a genuine panic.
-pub struct InjectedUnwind(pub u8);
+pub struct InjectedUnwind(#[allow(dead_code)] pub u8);
 
 thread_local! {
     static UNI: RefCell<Option<Rc<Universe>>> = const { RefCell::new(None) };
@@ -525,6 +526,7 @@ pub fn unwinds_fired() -> u32 {
     uni().unwinds.get()
 }
 
+#[allow(dead_code)]
 pub fn spec_of(logical: u8) -> NodeSpec {
     uni().specs[logical as usize].clone()
 }
@@ -763,6 +765,7 @@ pub fn key(t: &Tx) -> Tx {
     }
 }
 
+#[allow(dead_code)]
 pub fn oracle_evals() -> u64 {
     uni().oracle_evals.get()
 }
